@@ -7,10 +7,18 @@ package scanner
 //@ pred wf_scanner(r) = r != nil && r.store != nil && r.coder != nil && r.metricCli != nil && r.compactHistories != nil && is_compact_key(r.config.CompactKey)
 
 // ---- result receivers (interface contract; the concrete receivers are verified under C03/C13) ----
+// ghost view of what a receiver has been given: out_n items (user key, value, revision);
+// out_limit is its limit (<= 0: unlimited)
+//@ ghost out_n Int
+//@ ghost out_key (Array Int Slice)
+//@ ghost out_val (Array Int Slice)
+//@ ghost out_rev (Array Int (_ BitVec 64))
+//@ ghost out_limit Int
 
 //@ func resultReceiver.append(key, value, revision)
 //@   assumed
-//@   modifies ghost.chan_len ghost.chan_log commonResultReceiver.result streamResultReceiver.batch []*proto.KeyValue proto.KeyValue.Key proto.KeyValue.Value proto.KeyValue.Revision
+//@   ensures [recorded] out_n == old(out_n)+1 && out_key == upd(old(out_key), old(out_n), key) && out_val == upd(old(out_val), old(out_n), value) && out_rev == upd(old(out_rev), old(out_n), revision)
+//@   modifies ghost.out_n ghost.out_key ghost.out_val ghost.out_rev ghost.chan_len ghost.chan_log commonResultReceiver.result streamResultReceiver.batch []*proto.KeyValue proto.KeyValue.Key proto.KeyValue.Value proto.KeyValue.Revision
 //@ func resultReceiver.flush()
 //@   assumed
 //@   modifies ghost.chan_len ghost.chan_log streamResultReceiver.batch
@@ -19,10 +27,12 @@ package scanner
 //@   modifies ghost.chan_len ghost.chan_log streamResultReceiver.batch
 //@ func resultReceiver.reset()
 //@   assumed
-//@   modifies commonResultReceiver.result streamResultReceiver.batch
+//@   ensures [emptied] out_n == 0
+//@   modifies ghost.out_n commonResultReceiver.result streamResultReceiver.batch
 //@ func resultReceiver.needMore() (result)
 //@   assumed
 //@   pure
+//@   ensures [limit] result == (out_limit <= 0 || out_n < out_limit)
 //@ func resultReceiver.fork() (result)
 //@   assumed
 //@   ensures [non-nil] result != nil
@@ -184,10 +194,53 @@ package scanner
 //@   ensures [floor-monotone] old(floor_set) ==> floor_set && floor >= old(floor)
 //@   ensures [closed] !batch_open
 
+// ---- C03: the scan loop in read mode ----
+// record i is emitted: it is the newest version of its key at or below the read revision (the
+// next record belongs to another key or lies above the read revision -- by sortedness exactly
+// "newest version <= R"), it is not the index record and not a deletion
+// (dead(i): record i's value is the deletion marker -- defined by the instances assumed in run's loop)
+//@ pred emitted(i, w) = rec_rev[i] != 0 && rec_rev[i] <= w.revision && !dead(i) && (i+1 >= rec_n || rec_uk[i+1] != rec_uk[i] || rec_rev[i+1] > w.revision)
+//@ pred same_slice(a, b) = a.obj == b.obj && a.off == b.off && len(a) == len(b)
+//@ pred uk_of(i) = rec_key[i][4:len(rec_key[i])-9]
+//@ pred is_rec(i, k, v, r) = r == rec_rev[i] && v == rec_val[i] && same_slice(k, uk_of(i))
+
 //@ func (*worker).run(ctx, receiver) (count, err)
-//@   assumed
-//@   modifies inferred:(*worker).run
+//@   props C03 C08
+//@   nosafety C08
 //@   requires [floor-checked] w.compact || !floor_set || floor <= w.revision
+//@   requires w != nil && w.store != nil && w.Coder != nil && w.metricCli != nil && receiver != nil
+//@   requires [ascending-interval] bytes_cmp(w.partition.Start, w.partition.End) < 0
+//@   requires [events-prefix-is-the-events-dir] len(w.eventsPrefix) == 0 || bytes_eq(w.eventsPrefix, events_dir)
+//@   requires [expiry-only-while-compacting] !w.compact ==> w.timeoutRevision == 0
+//@   modifies inferred:(*worker).run
+//@   ensures [unlimited-read-is-the-snapshot] !w.compact && err == nil && out_limit <= 0 ==> out_n == cnt(rec_n) && count == out_n && forall(i, 0 <= i && i < rec_n && emitted(i, w), is_rec(i, out_key[cnt(i)], out_val[cnt(i)], out_rev[cnt(i)]))
+//@   ensures [limited-read-is-a-prefix-of-the-snapshot] !w.compact && err == nil && out_limit > 0 ==> out_n <= out_limit && out_n <= cnt(rec_n) && (out_n < out_limit ==> out_n == cnt(rec_n)) && forall(i, 0 <= i && i < rec_n && emitted(i, w) && cnt(i) < out_n, is_rec(i, out_key[cnt(i)], out_val[cnt(i)], out_rev[cnt(i)]))
+// cnt(i): number of emitted records among the first i; lastvis(i): index of the last record among the
+// first i that is visible at the read revision (-1: none). Their defining recursions are used
+// through the instances the proof needs (at the current position and at the previous record).
+//@   loop 0 assume [dead-def-at-previous-and-here] (lastvis(it_pos) >= 0 ==> dead(lastvis(it_pos)) == bytes_eq(rec_val[lastvis(it_pos)], w.tombstone)) && (it_pos < rec_n ==> dead(it_pos) == bytes_eq(rec_val[it_pos], w.tombstone))
+//@   loop 0 assume [cnt-def-here] cnt(0) == 0 && (it_pos < rec_n ==> cnt(it_pos+1) == cnt(it_pos)+ite(emitted(it_pos, w), 1, 0))
+//@   loop 0 assume [cnt-def-at-previous] lastvis(it_pos) >= 0 ==> cnt(lastvis(it_pos)+1) == cnt(lastvis(it_pos))+ite(emitted(lastvis(it_pos), w), 1, 0)
+//@   loop 0 assume [cnt-monotone] forall(i, 0 <= i && i <= rec_n, cnt(i) >= 0 && cnt(i) <= i && forall(k, i <= k && k <= rec_n, cnt(i) <= cnt(k)))
+//@   loop 0 assume [cnt-strict-after-emitted] forall(i, 0 <= i && i < rec_n && emitted(i, w), forall(k, i < k && k <= rec_n, cnt(i) < cnt(k)))
+//@   loop 0 assume [lastvis-def-here] lastvis(0) == -1 && (it_pos < rec_n ==> lastvis(it_pos+1) == ite(rec_rev[it_pos] <= w.revision, it_pos, lastvis(it_pos)))
+//@   loop 0 assume [lastvis-range] -1 <= lastvis(it_pos) && lastvis(it_pos) < it_pos && (lastvis(it_pos) >= 0 ==> rec_rev[lastvis(it_pos)] <= w.revision) && forall(i, lastvis(it_pos) < i && i < it_pos, rec_rev[i] > w.revision)
+//@   loop 0 invariant [position] 0 <= it_pos && it_pos <= rec_n && rec_n <= 0x1000000000000 && err == nil
+// the iterator's order facts, used on demand through pair_hint for the window between the previous and
+// the current record; the key bytes are not written by the loop, so ranks_are_keys keeps holding
+//@   loop 0 invariant [iterator-facts] sorted_seq(rec_uk, rec_rev, rec_n) && ranks_are_keys(rec_uk, rec_key, old(heap_bytes), rec_n) && heap_bytes == old(heap_bytes)
+//@   loop 0 invariant [window-hints] pair_hint(lastvis(it_pos), it_pos) && pair_hint(it_pos, lastvis(it_pos)) && pair_hint(lastvis(it_pos), lastvis(it_pos)+1) && pair_hint(lastvis(it_pos)+1, it_pos)
+//@   loop 0 invariant [current-is-well-formed] it_pos < rec_n ==> is_internal_key(rec_key[it_pos]) && rec_rev[it_pos] == key_rev(rec_key[it_pos])
+// one iteration: an append happens exactly when the previous record is emitted
+//@   loop 0 step_lemma [append-needs-a-previous-record] !w.compact && out_n != head(out_n) ==> head(lastvis(it_pos)) >= 0 && out_n == head(out_n)+1
+//@   loop 0 step_lemma [why-appended] !w.compact && out_n == head(out_n)+1 ==> it_pos == head(it_pos)+1 && rec_rev[head(it_pos)] <= w.revision && rec_uk[head(it_pos)] != rec_uk[head(lastvis(it_pos))] && rec_rev[head(lastvis(it_pos))] != 0 && !dead(head(lastvis(it_pos)))
+//@   loop 0 step_lemma [appended-record-is-emitted] !w.compact && out_n == head(out_n)+1 ==> cnt(head(lastvis(it_pos))+1) == cnt(head(lastvis(it_pos)))+1
+//@   loop 0 step_lemma [why-kept] !w.compact && out_n == head(out_n) && head(lastvis(it_pos)) >= 0 && it_pos == head(it_pos)+1 && rec_rev[head(it_pos)] <= w.revision ==> rec_uk[head(it_pos)] == rec_uk[head(lastvis(it_pos))] || rec_rev[head(lastvis(it_pos))] == 0 || dead(head(lastvis(it_pos)))
+//@   loop 0 step_lemma [kept-record-is-not-emitted] !w.compact && out_n == head(out_n) && head(lastvis(it_pos)) >= 0 && it_pos == head(it_pos)+1 && rec_rev[head(it_pos)] <= w.revision ==> cnt(head(lastvis(it_pos))+1) == cnt(head(lastvis(it_pos)))
+//@   loop 0 invariant [previous-is-the-last-visible-record] !w.compact ==> ite(lastvis(it_pos) < 0, prevRevision == 0, is_rec(lastvis(it_pos), prevUserKey, prevValue, prevRevision))
+//@   loop 0 invariant [emitted-so-far] !w.compact ==> out_n == cnt(ite(lastvis(it_pos) < 0, 0, lastvis(it_pos))) && count == out_n && cnt(it_pos) == cnt(lastvis(it_pos)+1)
+//@   loop 0 invariant [within-the-limit] !w.compact && out_limit > 0 ==> out_n <= out_limit
+//@   loop 0 invariant [content-so-far] !w.compact ==> forall(i, 0 <= i && i < lastvis(it_pos) && emitted(i, w), is_rec(i, out_key[cnt(i)], out_val[cnt(i)], out_rev[cnt(i)]))
 
 //@ func (*worker).runWithBackoffRetry(ctx, receiver) (count, err)
 //@   props C08
